@@ -106,7 +106,15 @@ fn probe_classes() -> Vec<ProbeClass> {
         };
         o12.push(format!("#[derive(Epserde, Clone, Copy, Debug, PartialEq)]\n#[repr(C)]\n#[zero_copy]\nstruct Inner {{ a: u32 }}\n#[derive(Epserde, Clone, Copy, Debug, PartialEq)]\n#[repr(C)]\n#[zero_copy]\nstruct Z2<A: ZeroCopy, B: ZeroCopy>(A, B, u8);\nfn main() {{ let _ = core::mem::size_of::<{arg}>(); println!(\"RESULT {{}}\", rt(&Z2(7u32, {val}, 9u8))); }}\n"));
     }
+    // fields whose type is an associated type of a parameter (`F::Store`): structures parameterised by a
+    // "storage family" trait
+    let fam = "pub trait Family { type Store; type Word; }\n#[derive(Debug, PartialEq, Eq, Clone, Copy, Default, epserde::TypeInfo)]\npub struct Wide;\nimpl Family for Wide { type Store = Vec<u64>; type Word = u64; }\n#[derive(Debug, PartialEq, Eq, Clone, Copy, Default, epserde::TypeInfo)]\npub struct Narrow;\nimpl Family for Narrow { type Store = Box<[u8]>; type Word = u8; }\n";
+    let proj = vec![
+        format!("{fam}#[derive(Epserde, Debug, PartialEq, Eq, Clone)]\nstruct Index<F: Family> {{ len: usize, data: F::Store, last: F::Word }}\nfn main() {{ println!(\"RESULT {{}}\", rt(&Index::<Wide> {{ len: 3, data: vec![1, 2, 3], last: 7 }}) && rt(&Index::<Narrow> {{ len: 1, data: vec![9u8].into_boxed_slice(), last: 2 }})); }}\n"),
+        format!("{fam}#[derive(Epserde, Debug, PartialEq, Eq, Clone)]\nenum Slot<F: Family, T> {{ Empty, Word(F::Word), Both {{ store: F::Store, extra: T }} }}\nfn main() {{ println!(\"RESULT {{}}\", rt(&Slot::<Wide, Vec<u8>>::Empty) && rt(&Slot::<Wide, Vec<u8>>::Word(5)) && rt(&Slot::<Wide, Vec<u8>>::Both {{ store: vec![9, 8], extra: vec![1, 2, 3] }})); }}\n"),
+    ];
     vec![
+        ProbeClass { sig: "derive-rejects:associated-type-projection-field", what: "a field whose type is an associated type of a type parameter (struct Index<F: Family> { data: F::Store }) is not handled by the derive", sources: proj },
         ProbeClass { sig: "derive-rejects:where-clause-on-field-parameter", what: "O10: a where-clause predicate on a type parameter that is the type of a field (struct S<A> where A: Clone { a: A }) is not carried over to the serialization / ε-copy types: the derived code does not compile", sources: o10 },
         ProbeClass { sig: "derive-rejects:bound-on-enum-field-parameter", what: "O11: an inline bound on a type parameter that is the type of a field of an enum variant (enum E<A: Clone> { X, Y(A) }) is not replicated: the derived code does not compile", sources: o11 },
         ProbeClass { sig: "derive-rejects:zero-copy-parameter-with-borrowed-eps-type", what: "O12: a zero-copy generic struct whose field parameter is instantiated by an array, tuple or zero-copy struct (Z2<u32, [u16; 2]>) implements neither trait: the ZeroCopy bound is replicated onto the parameter's ε-copy type, a reference", sources: o12 },
